@@ -133,8 +133,8 @@ void MainSolver::insertFormula(PTRef fla) {
     if (logic.getSortRef(fla) != logic.getSort_bool()) {
         throw ApiException("Top-level assertion sort must be Bool, got " + logic.sortToString(logic.getSortRef(fla)));
     }
-    // TODO: Move this to preprocessing of the formulas
-    fla = IteHandler(logic, getPartitionManager().getNofPartitions()).rewrite(fla);
+    // The assertion is stored as given, so that its names (:named) and its partition refer to the same term;
+    // ITEs are rewritten when the frame is simplified (see simplifyFormulas)
 
     if (trackPartitions()) {
         // MB: Important for HiFrog! partition index is the index of the formula in an virtual array of inserted
@@ -173,7 +173,8 @@ sstat MainSolver::simplifyFormulas() {
         if (context.perPartition) {
             vec<PTRef> frameFormulas;
             for (PTRef fla : frames[i].formulas) {
-                PTRef processed = theory->preprocessAfterSubstitutions(fla, context);
+                PTRef iteFree = IteHandler(logic, static_cast<unsigned>(pmanager.getPartitionIndex(fla))).rewrite(fla);
+                PTRef processed = theory->preprocessAfterSubstitutions(iteFree, context);
                 pmanager.transferPartitionMembership(fla, processed);
                 frameFormulas.push(processed);
                 preprocessor.addPreprocessedFormula(processed);
@@ -198,7 +199,11 @@ sstat MainSolver::simplifyFormulas() {
                 if (status == s_False) { break; }
             }
         } else {
-            PTRef frameFormula = logic.mkAnd(frames[i].formulas);
+            vec<PTRef> iteFreeFormulas;
+            for (PTRef fla : frames[i].formulas) {
+                iteFreeFormulas.push(IteHandler(logic, getPartitionManager().getNofPartitions()).rewrite(fla));
+            }
+            PTRef frameFormula = logic.mkAnd(std::move(iteFreeFormulas));
             if (context.frameCount > 0) { frameFormula = applyLearntSubstitutions(frameFormula); }
             frameFormula = theory->preprocessBeforeSubstitutions(frameFormula, context);
             frameFormula = substitutionPass(frameFormula, context);
